@@ -298,6 +298,7 @@ LedRet(g, op, a, b, d, ret) ==
     [] op = "TakeUnadopt" -> [g EXCEPT !.rec[a][b] = Max(0, @ - 1),
                                        !.rootS[b] = @ + 1, !.valS[a][b] = @ - 1]
     [] op = "Downgrade"   -> [g EXCEPT !.rootW[a] = @ + 1]
+    [] op = "DowngradeStored" -> [g EXCEPT !.rootW[b] = @ + 1]
     [] op = "Upgrade"     -> IF ret = "some" THEN [g EXCEPT !.rootS[a] = @ + 1] ELSE g
     [] op = "UpgradeStored" -> IF ret = "some" THEN [g EXCEPT !.rootS[b] = @ + 1] ELSE g
     [] op = "WeakClone"   -> IF ret = "ok" THEN [g EXCEPT !.rootW[a] = @ + 1] ELSE g
@@ -313,6 +314,7 @@ LedRet(g, op, a, b, d, ret) ==
     [] op = "FromRaw"     -> [g EXCEPT !.raw[a] = @ - 1, !.rootS[a] = @ + 1]
     [] op = "WeakFromRaw" -> [g EXCEPT !.rawW[a] = @ - 1, !.rootW[a] = @ + 1]
     [] op = "IncStrong"   -> IF ret = "ok" THEN [g EXCEPT !.raw[a] = @ + 1] ELSE g
+    [] op = "IncStrongStored" -> IF ret = "ok" THEN [g EXCEPT !.raw[b] = @ + 1] ELSE g
     [] op = "DropDetached" -> [g EXCEPT !.unw = @ \ {a}]
     [] OTHER -> g
 
@@ -489,6 +491,16 @@ OpDowngrade(o, top, base) ==
   /\ Intact(o) /\ ob.nd[o] = 0 /\ AccS(o) >= 1 /\ WeakHandles(o) < Caps.weak
   /\ Done([heap EXCEPT !.weak[o] = @ + 1], "Downgrade", o, 0, NoScript, "ok", top, base)
 
+\* Rc::downgrade through a handle stored in a's value (possibly from inside a's destructor, when
+\* o may already be destroyed: the Weak is legal and keeps o's allocation); the Weak escapes
+OpDowngradeStored(a, o, top, base) ==
+  /\ CanOpen(a, top) /\ led.valS[a][o] > 0 /\ WeakHandles(o) < Caps.weak
+  /\ IF heap.mem[o] # "alloc" THEN Crash(<<"uaf", o>>)
+     ELSE IF heap.weak[o] = 0
+     THEN Commit(heap, led, [ObFor(top, "DowngradeStored", a, o) EXCEPT !.ret = "abort"],
+                 [ctl EXCEPT !.mode = "aborted"])
+     ELSE Done([heap EXCEPT !.weak[o] = @ + 1], "DowngradeStored", a, o, NoScript, "ok", top, base)
+
 \* Weak::upgrade through a Weak handle to o; the new strong handle (if any) becomes a root
 DoUpgrade(o, op, a, b, top, base) ==
   IF heap.mem[o] # "alloc" THEN Crash(<<"uaf", o>>)
@@ -632,6 +644,10 @@ OpWeakFromRaw(o, top, base) ==
 OpIncStrong(o, top, base) ==
   /\ led.raw[o] > 0 /\ Handles(o) < Caps.strong
   /\ DoClone(o, "IncStrong", o, 0, ObFor(top, "IncStrong", o, 0), base)
+\* Rc::increment_strong_count on the pointer of a handle stored in a's value
+OpIncStrongStored(a, o, top, base) ==
+  /\ CanOpen(a, top) /\ led.valS[a][o] > 0 /\ Handles(o) < Caps.strong
+  /\ DoClone(o, "IncStrongStored", a, o, ObFor(top, "IncStrongStored", a, o), base)
 OpDecStrong(o, top, base) ==
   /\ led.raw[o] > 0
   /\ LET g2 == LC("DecStrong", o, 0)
@@ -665,6 +681,8 @@ CallOp(op, a, b, d, top, base) ==
     [] op = "AdoptStore"  -> OpAdoptStore(a, b, top, base)
     [] op = "TakeUnadopt" -> OpTakeUnadopt(a, b, top, base)
     [] op = "Downgrade"   -> OpDowngrade(a, top, base)
+    [] op = "DowngradeStored" -> OpDowngradeStored(a, b, top, base)
+    [] op = "IncStrongStored" -> OpIncStrongStored(a, b, top, base)
     [] op = "Upgrade"     -> OpUpgrade(a, top, base)
     [] op = "UpgradeStored" -> OpUpgradeStored(a, b, top, base)
     [] op = "WeakClone"   -> OpWeakClone(a, top, base)
@@ -890,7 +908,7 @@ ScriptBase == SetTop([Top EXCEPT !.ph = "fields"])
 \* a script names its call like a trace line does: [op, x, y]; calls on stored handles
 \* act on the value being destroyed
 ScriptCall(sc) ==
-  IF sc.op \in {"UpgradeStored", "CloneStored", "DropStored", "Take"}
+  IF sc.op \in {"UpgradeStored", "CloneStored", "DropStored", "Take", "DowngradeStored", "IncStrongStored"}
   THEN [op |-> sc.op, a |-> Top.o, b |-> sc.x]
   ELSE [op |-> IF sc.op = "UpgradeWeak" THEN "Upgrade" ELSE sc.op, a |-> sc.x, b |-> sc.y]
 ScriptOp(sc) ==
@@ -950,6 +968,8 @@ Call ==
   /\ \/ En("New")         /\ \E d \in DtorMenu : OpNew(d, TRUE, <<>>)
      \/ En("CloneRoot")   /\ \E o \in Obj : OpCloneRoot(o, TRUE, <<>>)
      \/ En("CloneStored") /\ \E a, o \in Obj : OpCloneStored(a, o, TRUE, <<>>)
+     \/ En("DowngradeStored") /\ \E a, o \in Obj : OpDowngradeStored(a, o, TRUE, <<>>)
+     \/ En("IncStrongStored") /\ \E a, o \in Obj : OpIncStrongStored(a, o, TRUE, <<>>)
      \/ En("DropRoot")    /\ \E o \in Obj : OpDropRoot(o, TRUE, <<>>)
      \/ En("Store")       /\ \E a, o \in Obj : OpStore(a, o, TRUE, <<>>)
      \/ En("Take")        /\ \E a, o \in Obj : OpTake(a, o, TRUE, <<>>)
